@@ -542,6 +542,15 @@ func checkFileX(c fileCase, exclude bool) error {
 // and strips carriage returns, so its line accounting is off by the time it reaches the package
 // clause: the blank line after the headers disappears (the header becomes package doc) or `*/` and
 // `package` end up on one line (the doc is detached). gofmt does the same to a hand-written file.
+func (c fileCase) hasCR() bool {
+	for _, t := range append(append([]string{}, c.Headers...), c.Package...) {
+		if strings.Contains(t, "\r") {
+			return true
+		}
+	}
+	return false
+}
+
 func (c fileCase) inKF2() bool {
 	for _, t := range append(append([]string{}, c.Headers...), c.Package...) {
 		if strings.ContainsAny(t, "\r\f") {
@@ -594,7 +603,10 @@ func (c fileCase) structure(out []byte, label string) error {
 				return fmt.Errorf("package doc holds %d block comments, %d were given\n%s", blocks, wantBlocks, out)
 			}
 		}
-		if fset.Position(f.Doc.End()).Line+1 != pkgLine {
+		// (go/ast computes Comment.End() from the text with carriage returns stripped, so with a
+		// CR in a text the end line is unreliable; f.Doc != nil already means the parser found the
+		// group on the line directly above the package clause)
+		if !c.hasCR() && fset.Position(f.Doc.End()).Line+1 != pkgLine {
 			return fmt.Errorf("package doc ends on line %d, package clause is on line %d\n%s", fset.Position(f.Doc.End()).Line, pkgLine, out)
 		}
 	}
@@ -618,7 +630,7 @@ func (c fileCase) structure(out []byte, label string) error {
 		if count == 0 {
 			return fmt.Errorf("header comments were given but none precedes the package doc / clause\n%s", out)
 		}
-		if fset.Position(last).Line+1 >= fset.Position(limit).Line {
+		if !c.hasCR() && fset.Position(last).Line+1 >= fset.Position(limit).Line {
 			return fmt.Errorf("no blank line between the header comments (end line %d) and the package doc / clause (line %d)\n%s", fset.Position(last).Line, fset.Position(limit).Line, out)
 		}
 		// marker words of headers must not occur in the package doc
